@@ -262,12 +262,13 @@ func (n *Nodis) SMove(source, destination, member string) bool {
 		}
 		n.signalModifiedKey(source, meta)
 		meta = tx.writeKey(destination, n.newSet)
-		m = meta.value.(*set.Set).SAdd(member)
+		meta.value.(*set.Set).SAdd(member)
 		n.signalModifiedKey(destination, meta)
 		n.notify(func() []patch.Op {
 			return []patch.Op{{Type: patch.OpTypeSAdd, Data: &patch.OpSAdd{Key: destination, Members: []string{member}}}}
 		})
-		v = m > 0
+		// the member was removed from the source: it moved, whether or not the destination already had it
+		v = true
 		return nil
 	})
 	return v
